@@ -12,7 +12,38 @@ use lzma_rust2::filter::bcj2::BCJ2Reader;
 use lzma_rust2::filter::delta::DeltaReader;
 use lzma_rust2::{LZIPReader, LZMA2Reader, LZMAReader, XZReader};
 
-const CAP: usize = 8 << 20;
+const CAP: usize = 1 << 20;
+
+const CRC32: crc::Crc<u32> = crc::Crc::<u32>::new(&crc::CRC_32_ISO_HDLC);
+
+/// Recomputes the CRC32 of the XZ stream header, of the first block header, of the index and of the
+/// footer (located from the front / from the back), so that mutations reach the parsers behind them.
+fn fix_xz_crcs(m: &mut [u8]) {
+    let n = m.len();
+    let put = |m: &mut [u8], a: usize, b: usize, at: usize| {
+        if a <= b && b <= m.len() && at + 4 <= m.len() {
+            let c = CRC32.checksum(&m[a..b]);
+            m[at..at + 4].copy_from_slice(&c.to_le_bytes());
+        }
+    };
+    if n >= 12 {
+        put(m, 6, 8, 8);
+    }
+    if n > 13 && m[12] != 0 {
+        let hs = (m[12] as usize + 1) * 4;
+        if 12 + hs <= n {
+            put(m, 12, 12 + hs - 4, 12 + hs - 4);
+        }
+    }
+    if n >= 24 + 12 {
+        let f = n - 12;
+        let bs = (u32::from_le_bytes([m[f + 4], m[f + 5], m[f + 6], m[f + 7]]) as usize).saturating_add(1).saturating_mul(4);
+        if bs >= 8 && bs <= f {
+            put(m, f - bs, f - 4, f - 4);
+        }
+        put(m, f + 4, f + 10, f);
+    }
+}
 
 fn drain<R: Read>(r: &mut R, chunk: usize) {
     let mut buf = vec![0u8; chunk.max(1)];
@@ -65,7 +96,17 @@ fuzz_target!(|data: &[u8]| {
             }
         }
         2 => drain(&mut LZMA2Reader::new(s, dict, None), chunk),
-        3 => drain(&mut XZReader::new(s, p[1] & 1 == 1), chunk),
+        3 => {
+            if p[1] & 2 != 0 {
+                let mut m = s.to_vec();
+                fix_xz_crcs(&mut m);
+                let mut r = XZReader::new(m.as_slice(), p[1] & 1 == 1);
+                drain(&mut r, chunk);
+                drop(r);
+            } else {
+                drain(&mut XZReader::new(s, p[1] & 1 == 1), chunk)
+            }
+        }
         4 => {
             if let Ok(mut r) = LZIPReader::new(s) {
                 drain(&mut r, chunk);
